@@ -331,6 +331,8 @@ type stashEntry struct {
 	b, bc         []byte
 	s, sc         string
 	isStr         bool
+	pkt           interface{} // a decoded packet or packet list, kept as returned
+	pktDump       string      // its semantic dump at return (XR headers masked)
 }
 
 var stash []stashEntry
@@ -354,6 +356,26 @@ func stashFrom(s *RunSpec, w *world, runIdx int) {
 					cands = append(cands, cand{t, i, pi})
 				}
 			}
+		}
+	}
+	// a few decoded packets as well: what a decoder returned must not change when later datagrams are decoded
+	npk := 0
+	for t := range w.res {
+		for i := range w.res[t] {
+			res := &w.res[t][i]
+			if npk >= 6 || len(stash) >= stashMax || !res.done || res.skipped || (res.outPtr == nil && res.outList == nil) {
+				continue
+			}
+			if r.chance(4) {
+				continue
+			}
+			op := &s.Tasks[t][i]
+			var obj interface{} = res.outPtr
+			if res.outPtr == nil {
+				obj = res.outList
+			}
+			stash = append(stash, stashEntry{run: runIdx, task: t, op: i, opName: opNames[op.K], kind: kindName(s, w, op), pkt: obj, pktDump: res.outDumpM})
+			npk++
 		}
 	}
 	for n := 0; n < stashPerRun && len(cands) > 0 && len(stash) < stashMax; n++ {
@@ -381,7 +403,11 @@ func checkStash(curRun int) []Violation {
 		e := &stash[i]
 		bad := false
 		var exp, act string
-		if e.isStr {
+		if e.pkt != nil {
+			if cur := dumpSem(e.pkt, true); cur != e.pktDump {
+				bad, exp, act = true, e.pktDump, cur
+			}
+		} else if e.isStr {
 			if e.s != e.sc {
 				bad, exp, act = true, fmt.Sprintf("%q", e.sc), fmt.Sprintf("%q", e.s)
 			}
@@ -394,7 +420,9 @@ func checkStash(curRun int) []Violation {
 				Task: e.task, OpIdx: e.op, Op: e.opName, Kind: e.kind, Verdict: true, Expected: clip(exp, d), Actual: clip(act, d),
 				Detail: fmt.Sprintf("value returned in run %d of this worker process (task %d, entry %d); found changed after run %d", e.run, e.task, e.op, curRun)})
 			// report once
-			if e.isStr {
+			if e.pkt != nil {
+				e.pktDump = dumpSem(e.pkt, true)
+			} else if e.isStr {
 				e.sc = e.s
 			} else {
 				e.bc = copyBytesPhys(e.b)
